@@ -199,7 +199,7 @@ class Ctx:
         """A timestamp: an instant, expressed in an arbitrary zone (utc=True: expressed in UTC)."""
         if self.mode == 'conc':
             import pandas as pd
-            v = self._cval(name, lambda r: 1577836800 + r.randint(0, 40) * 21600 + r.choice([0, 52200, 75600, 75599, 52199]), float)
+            v = self._cval(name, lambda r: 1577836800 + r.randint(0, 40) * 21600 + r.choice([0, 52200, 75600, 75599, 52199, 52199.625, 75599.5, 0.25]), float)
             ts = pd.Timestamp(float(v), unit='s', tz='UTC')
             # the same instant may be expressed in any zone (comparisons are by instant)
             zi = 0 if utc else self._cval(name + '.zone', lambda r: r.choice([0, 0, 0, 1, 2, 3]), int)
